@@ -17,6 +17,7 @@ EXPLANATION = ('R05.1 sensitivity_to_shear/bulk == TB05 eq. 33 with dy1/dr the s
                'R05.3 calc_radial_tidal_heating(r) * 4 pi r^2 == (21/2) G M^2 R^5 n e^2 / a^6 * 4 pi G/((2l+1) R) * H_mu * Im(mu); R05.4 no in-place update of arguments; '
                'R05.5 energy theorem in differential form and surface value of the flux; R05.6 the flux is constant through liquid layers with real bulk modulus and continuous across every interface kind '
                '(so the theorem holds for layered bodies); R05.7 both kernels are non-negative sums of squares along solutions, hence Im k <= 0 for dissipative or elastic layers. R05.1, R05.2, R05.5 and R05.7 are decided on every arm of every data-dependent test in the kernels.')
+EXPLANATION += ' R05.9 the compiled solver returns, for the tidal type, what the theorem presupposes: surface condition, interface continuity, assembled solution in the span of the integrated ones, k = y5(R) - 1 (whole-driver symbolic execution, dimensional and non-dimensionalised); R05.10 loop index widths.'
 EXPLANATION += ' R05.8 the array twin of calc_radial_tidal_heating: with array arguments (mutable cells; np.asarray hands the same array back) the returned profile is the scalar value and the sensitivity profile the caller passed is left intact.'
 
 
@@ -179,6 +180,16 @@ def run(chk):
     from .common import inplace_lint
     inplace_lint(chk, repo, 'R05.4', ['TidalPy/radial_solver/sensitivity.py', 'TidalPy/tides/multilayer/heating.py'])
     chk.floor('R05.4', 2)
+    # ---- R05.9 what the theorem presupposes of the compiled solver ("for any successfully solved planet"): the returned tidal solution meets the tidal surface condition,
+    #      is continuous across the interfaces in the components R05.6 uses, is in every layer a combination of that layer's integrated solutions (y3 of dynamic liquids by
+    #      the elimination formula), and k is y5(R) - 1 of its surface row -- dimensional and non-dimensionalised; no loop of the solve counts slices in a type narrower than
+    #      its bound.  Only the tidal type is looked at: loading and free solutions are no part of C05.
+    from . import solver_whole as SW
+    from .common import index_width_lint
+    SW.guarded(chk, 'C05', lambda: SW.assembled(chk, repo, 'R05.9', 'R05.9', 'R05.9', rule_span='R05.9', types=('tidal',)))
+    SW.guarded(chk, 'C05', lambda: SW.liquid_y3(chk, repo, 'R05.9'))
+    index_width_lint(chk, repo, 'R05.10', ['TidalPy/RadialSolver/**/*.pyx', 'TidalPy/utilities/dimensions/*.pyx'])
+    chk.floor('R05.9', 20); chk.floor('R05.10', 30)
     chk.floor('R05.1', 24); chk.floor('R05.2', 4); chk.floor('R05.3', 3)
     chk.assume('r > 0 at every node; moduli complex; the world radius is the last element of the radius array')
 
